@@ -86,7 +86,9 @@ let nest_trace (kind: string) (scripts: step list list) (ops: op list) : string 
       | HSelf -> Some HSelf
       | HOf (l, k) -> let l = int_of_nat l in if inner_of l = c then Some (HOf (nat_of_int (l - base c), k)) else None) stp.fires } in
   let leaves c = List.map (List.map (localise c)) (if c = 0 then List.filteri (fun i _ -> i < half) scripts else List.filteri (fun i _ -> i >= half) scripts) in
-  let run_level scs hist = if kind = "nest_jj" then tr (join_world true false false scs hist) else tr (merge_world true scs hist) in
+  let run_level scs hist = if kind = "nest_mm" then tr (merge_world true scs hist) else tr (join_world true false false scs hist) in
+  (* the outer level of nest_jt is the two-argument trait method a.join(b): the tuple algorithm *)
+  let run_outer scs hist = if kind = "nest_jt" then tr (join_world true false true scs hist) else run_level scs hist in
   let ihist = [| []; [] |] and itr = [| 0; 0 |] and ipolled = [| false; false |] in
   let oscs = [| []; [] |] and ohist = ref [] and otr = ref 0 in
   let out = ref [] in
@@ -95,7 +97,7 @@ let nest_trace (kind: string) (scripts: step list list) (ops: op list) : string 
   (* the outer model's reaction to one wake-up of the waker child c holds: a fire operation between polls *)
   let outer_fire c =
     ohist := !ohist @ [OFire (nat_of_int c, O)];
-    let t = run_level [oscs.(0); oscs.(1)] !ohist in
+    let t = run_outer [oscs.(0); oscs.(1)] !ohist in
     let d = drop_n !otr t in otr := List.length t;
     List.iter (fun e -> match e with EW p -> emit (Printf.sprintf "W%d" (int_of_nat p)) | _ -> ()) d in
   let results = ref [] in
@@ -111,7 +113,7 @@ let nest_trace (kind: string) (scripts: step list list) (ops: op list) : string 
           let a = (match List.rev d with EEndR r :: _ -> to_ans r | EEndX :: _ -> APanic | _ -> APend) in
           (pop, t, d, { fires = List.init nw (fun _ -> HSelf); answer = a })) in
         ohist := !ohist @ [o];
-        let t = run_level [oscs.(0) @ [let (_, _, _, s) = spec.(0) in s]; oscs.(1) @ [let (_, _, _, s) = spec.(1) in s]] !ohist in
+        let t = run_outer [oscs.(0) @ [let (_, _, _, s) = spec.(0) in s]; oscs.(1) @ [let (_, _, _, s) = spec.(1) in s]] !ohist in
         let d = drop_n !otr t in otr := List.length t;
         (* walk the outer poll; a poll of child c is replaced by what happened inside the inner combinator *)
         let rec walk evs pending =
@@ -160,7 +162,7 @@ let nest_trace (kind: string) (scripts: step list list) (ops: op list) : string 
           | EF (j, k) -> emit (Printf.sprintf "f%d.%d" (base c + int_of_nat j) (int_of_nat k))
           | EW _ -> outer_fire c
           | _ -> ()) d
-    | ODrop -> emit "d"; dropped := true; ohist := !ohist @ [ODrop]; otr := List.length (run_level [oscs.(0); oscs.(1)] !ohist);
+    | ODrop -> emit "d"; dropped := true; ohist := !ohist @ [ODrop]; otr := List.length (run_outer [oscs.(0); oscs.(1)] !ohist);
                Array.iteri (fun c _ -> ihist.(c) <- ihist.(c) @ [ODrop]; itr.(c) <- List.length (run_level (leaves c) ihist.(c))) ihist
     | OMut _ -> ()) ops;
   if not !dropped then emit "d";
@@ -194,12 +196,12 @@ let () =
           | "wait_stream" -> run_wait true scripts ops
           | "fgroup" | "fgroup_keyed" -> run_group selective false (nat_of_int n) ops
           | "sgroup" | "sgroup_keyed" -> run_group selective true (nat_of_int n) ops
-          | "nest_jj" | "nest_mm" -> []
+          | "nest_jj" | "nest_mm" | "nest_jt" -> []
           | _ -> failwith "comb" in
         (* the keys of members born through extend are not observable: their K tokens are printed as a bare `k` (the i-th EK belongs to the i-th insert) *)
         let nk = ref 0 in
         let toks = List.map (fun e -> match e with EK _ -> let i = !nk in incr nk; if Hashtbl.mem ext_born i then "k" else show_ev e | _ -> show_ev e) tr in
-        let toks = if comb = "nest_jj" || comb = "nest_mm" then nest_trace comb scripts ops else toks in
+        let toks = if comb = "nest_jj" || comb = "nest_mm" || comb = "nest_jt" then nest_trace comb scripts ops else toks in
         print_endline (String.concat " " (id :: toks))
       | _ -> failwith "case"
     end
